@@ -115,9 +115,9 @@ class Exec(StmtMixin):
                 raise Unsupported("%s outside loop" % o.kind)
         # canary: some path must reach a normal or exceptional end (otherwise every post is vacuous)
         any_end = [o for o in outs]
-        if not any_end:
-            raise Unsupported("no path reaches the end of %s" % c.qual)
-        pcs = [z3.And(o.st.pc) if o.st.pc else z3.BoolVal(True) for o in any_end]
+        # (when an obligation on the only path is refuted, the path continues under the refuted
+        # goal and dies; the cover is then vacuous and the driver attributes it to the refutation)
+        pcs = [z3.And(o.st.pc) if o.st.pc else z3.BoolVal(True) for o in any_end] or [z3.BoolVal(False)]
         self.obls.append(Obl(self.oname("cover", "some-path-terminates", self.fnode.lineno), "cover", "some-path-terminates",
                              self.fnode.lineno, [z3.Or(pcs)], z3.BoolVal(True)))
 
@@ -357,6 +357,7 @@ def verify_contract(qual, pid, timeout_ms=20000, cvc5_agree=False):
         out["notes"] = ex.notes
         out["trusted"] = sorted(ex.trusted_used)
         out["paths"] = ex.paths
+        out["known_used"] = sorted(ex.known_used)
         out["func_hash"] = ex.module.func_hash(ex.fnode)
         out["lines"] = [ex.fnode.lineno, ex.fnode.end_lineno]
         out["file"] = os.path.relpath(ex.module.path, source.REPO)
